@@ -337,6 +337,7 @@ def check_history(ctx, case, part="history", by_construction=False):
         model = Model(base_model_levels)
         rejected_before = False
         adds = []
+        snaps = []  # (finished format, model table at the time it was taken)
         for oi, op in enumerate(ops):
             where = "level %d op %d %s" % (li, oi, op["op"])
             exp = model.apply(op)
@@ -378,6 +379,14 @@ def check_history(ctx, case, part="history", by_construction=False):
             d = first_diff(bt, ft)
             if d:
                 fail("C06.queries", {d[0]: d[1]}, {"at": where, "format": d[2]}, sig="builder-vs-format:" + qname(d[0]))
+            # a finished format is a snapshot: what the builder does afterwards does not change its answers
+            for sf, stable in (snaps[-2:] + snaps[:1]):
+                d = first_diff(stable, real_table(sf, objs))
+                if d:
+                    fail("C06.queries", {d[0]: d[1]}, {"at": where, "format taken earlier now answers": d[2]},
+                         sig="snapshot:" + qname(d[0]))
+                    return
+            snaps.append((fmt, mt))
         # element-list constructor on the same base: same accept/reject, same answers
         ctor_model = Model(base_model_levels)
         verdict = "ok"
